@@ -29,6 +29,11 @@ RULE = (
     "bits -> equal value sequences. distinct = blake2b(relation, payloads); non-trivial = message has >= 1 repeated "
     "item or relation compares >= 1 shared field"
 )
+RULE += (
+    ' Also: before every decode the one-bit neighbours (message number / 4076 sub-type) of the identity'
+    ' are parsed as short messages; MSM decodes are repeated under label options 2 and 0; code-bias /'
+    ' phase-bias nesting relations, MSM level relations and prefix relations between message families.'
+)
 ASSUMPTIONS = [
     "vf.stdgeom pins RTCM 10403.3 (2016) and IGS SSR v1.00 bit geometry from memory of the standards; entries with "
     "provenance T (1300-1305, NavIC MSM) follow later amendments",
